@@ -165,7 +165,7 @@ func init() {
 			}
 			return c
 		},
-		"vnow": func(x *X, fn *ssa.Function, a []Value) Value { return x.clock() },
+		"vnow":       func(x *X, fn *ssa.Function, a []Value) Value { return x.clock() },
 		"vand":       func(x *X, fn *ssa.Function, a []Value) Value { return x.B.And(a[0].(*T), a[1].(*T)) },
 		"vor":        func(x *X, fn *ssa.Function, a []Value) Value { return x.B.Or(a[0].(*T), a[1].(*T)) },
 		"vimplies":   func(x *X, fn *ssa.Function, a []Value) Value { return x.B.Implies(a[0].(*T), a[1].(*T)) },
@@ -221,8 +221,8 @@ func init() {
 		// vexpectTimerAtBlock(): from now on, a goroutine that goes to sleep in Sleeper.Fetch with
 		// no scripted event left must have a runtime timer armed (else it waits forever)
 		"vexpectTimerAtBlock": func(x *X, fn *ssa.Function, a []Value) Value { x.ghost["timer.expect"] = x.B.True(); return nil },
-		"vreadvPush": func(x *X, fn *ssa.Function, a []Value) Value { x.ghostAppend("readvq", a[0]); return nil },
-		"vrandPush": func(x *X, fn *ssa.Function, a []Value) Value { x.ghostAppend("randq", a[0]); return nil },
+		"vreadvPush":          func(x *X, fn *ssa.Function, a []Value) Value { x.ghostAppend("readvq", a[0]); return nil },
+		"vrandPush":           func(x *X, fn *ssa.Function, a []Value) Value { x.ghostAppend("randq", a[0]); return nil },
 		"vparam": func(x *X, fn *ssa.Function, a []Value) Value {
 			if v, ok := x.Params[x.strArg(a[0])]; ok {
 				return x.c64(uint64(int64(v)))
@@ -330,7 +330,7 @@ func init() {
 			}
 			return Iface{}
 		},
-		"(*sync.Pool).Put": nop,
+		"(*sync.Pool).Put":       nop,
 		"(*sync.Cond).Signal":    nop,
 		"(*sync.Cond).Broadcast": nop,
 
@@ -393,7 +393,7 @@ func init() {
 			return x.freshVar("timerReset", 0)
 		},
 
-		"runtime.Gosched":  nop,
+		"runtime.Gosched":   nop,
 		"runtime.KeepAlive": nop,
 
 		"math/rand.Int31n": func(x *X, fn *ssa.Function, a []Value) Value {
@@ -413,9 +413,13 @@ func init() {
 			}
 			return v
 		},
-		"math/rand.Int31":  func(x *X, fn *ssa.Function, a []Value) Value { return x.B.LShr(x.input(x.inputName("rand.Int31"), 32), x.B.Const(1, 32)) },
+		"math/rand.Int31": func(x *X, fn *ssa.Function, a []Value) Value {
+			return x.B.LShr(x.input(x.inputName("rand.Int31"), 32), x.B.Const(1, 32))
+		},
 		"math/rand.Uint32": func(x *X, fn *ssa.Function, a []Value) Value { return x.input(x.inputName("rand.Uint32"), 32) },
-		"math/rand.Int63":  func(x *X, fn *ssa.Function, a []Value) Value { return x.B.LShr(x.input(x.inputName("rand.Int63"), 64), x.c64(1)) },
+		"math/rand.Int63": func(x *X, fn *ssa.Function, a []Value) Value {
+			return x.B.LShr(x.input(x.inputName("rand.Int63"), 64), x.c64(1))
+		},
 		"math/rand.Int": func(x *X, fn *ssa.Function, a []Value) Value {
 			return x.B.LShr(x.input(x.inputName("rand.Int"), 64), x.c64(1))
 		},
@@ -430,9 +434,9 @@ func init() {
 			}
 			return v
 		},
-		"math/rand.Seed": nop,
-		"crypto/rand.Read": func(x *X, fn *ssa.Function, a []Value) Value { return x.randRead(a[0].(Slice)) },
-		"math/rand.Read":   func(x *X, fn *ssa.Function, a []Value) Value { return x.randRead(a[0].(Slice)) },
+		"math/rand.Seed":              nop,
+		"crypto/rand.Read":            func(x *X, fn *ssa.Function, a []Value) Value { return x.randRead(a[0].(Slice)) },
+		"math/rand.Read":              func(x *X, fn *ssa.Function, a []Value) Value { return x.randRead(a[0].(Slice)) },
 		ModulePath + "/pkg/rand.Read": func(x *X, fn *ssa.Function, a []Value) Value { return x.randRead(a[0].(Slice)) },
 
 		ModulePath + "/protocol/network/hash.RandN32": func(x *X, fn *ssa.Function, a []Value) Value {
@@ -536,7 +540,7 @@ func init() {
 			}
 			return x.B.And(cs...)
 		},
-		"internal/abi.NoEscape": func(x *X, fn *ssa.Function, a []Value) Value { return a[0] },
+		"internal/abi.NoEscape":                                  func(x *X, fn *ssa.Function, a []Value) Value { return a[0] },
 		"(*" + ModulePath + "/protocol.StatCounter).Increment":   nop,
 		"(*" + ModulePath + "/protocol.StatCounter).IncrementBy": nop,
 	}
